@@ -315,7 +315,7 @@ func (r *LayerManager) release(ctx context.Context, refspec reference.Spec, tocD
 	i := r.refcounter[refspec.String()][tocDigest.String()]
 	if i <= 0 {
 		// No reference to this layer. release it.
-		delete(r.refcounter, tocDigest.String())
+		delete(r.refcounter[refspec.String()], tocDigest.String())
 		if len(r.refcounter[refspec.String()]) == 0 {
 			delete(r.refcounter, refspec.String())
 			delete(r.resolveLayerCache, refspec.String()) // no reference to this image. So reset the resolve status as well.
@@ -326,6 +326,11 @@ func (r *LayerManager) release(ctx context.Context, refspec reference.Spec, tocD
 		l, ok := r.layer[refspec.String()][tocDigest.String()]
 		if !ok {
 			return 0, fmt.Errorf("layer of digest %q/%q is not registered (ref=%d)", refspec, tocDigest, i)
+		}
+		// Forget the resolve status of this layer so that the next lookup resolves it again
+		// even if other layers of this image are still referenced.
+		if c := r.resolveLayerCache[refspec.String()]; c != nil {
+			delete(c, l.Info().Digest.String())
 		}
 		l.Done()
 		delete(r.layer[refspec.String()], tocDigest.String())
